@@ -1,9 +1,173 @@
-import Ivg.Model.Decoder
-import Ivg.Model.Arc
-import Ivg.Model.MdIcons
+import Ivg.Lemmas.GenQ
 import Ivg.Gen.Tie
 import Ivg.Obligations
-/-! # Property C19 — theorems (work in progress: tie obligations only so far) -/
+/-!
+# C19 — the generator's gradient helpers
+
+Property text: "The generator's gradient helpers write a gradient that, when rendered, realises the
+requested geometry: linear has offset 0 at (x1,y1), 1 at (x2,y2) and is constant along perpendiculars;
+circular has 0 at the centre and 1 on the circle through centre plus radius vector; elliptical has 1 at
+both axis end points; the general form uses the given matrix. The stops, spread and shape given are the
+ones rendered; stop colours and offsets are stored in the contiguous registers the written gradient
+value itself names, with the matrix in the six number registers below its number base; more stops than
+fit beside the matrix (58) or a colour selector inside the stop range are rejected with the documented
+errors before anything is written; and CSEL and NSEL are left as they were."
+
+Model: `Ivg/Model/Generator.lean` (`setGradient`, `linearMatrix`, `circularMatrix`, `ellipticalMatrix`),
+mirroring `/repo/generate/generate.go`.  Geometry is proved for the model instantiated at EXACT
+arithmetic (`ℚ`); the structure of `SetGradient` is proved for every number type.
+`GenQ.app m x y` applies the viewBox-to-gradient matrix `m = [a0 a1 a2; a3 a4 a5]` to a viewBox point;
+`Gradient.at` (C15) takes the first component as offset for the linear shape and the distance of the
+image from the origin for the radial shape.
+-/
 namespace Ivg.Props.C19
+open Ivg Gen GenQ
+
+/-! ## geometry (exact arithmetic) -/
+
+/-- Clause "linear has offset 0 at (x1,y1), 1 at (x2,y2) and is constant along perpendiculars".  The
+    third conjunct gives the offset of every point (its projection on the segment), the fourth says a
+    step of any length `s` along the perpendicular direction `(y2−y1, −(x2−x1))` does not change it. -/
+theorem linear_gradient_geometry (x1 y1 x2 y2 : ℚ) (h : x1 ≠ x2 ∨ y1 ≠ y2) :
+    let m := linearMatrix x1 y1 x2 y2
+    (app m x1 y1).1 = 0 ∧ (app m x2 y2).1 = 1 ∧
+    (∀ px py, (app m px py).1 =
+      ((px - x1) * (x2 - x1) + (py - y1) * (y2 - y1)) / ((x2 - x1) * (x2 - x1) + (y2 - y1) * (y2 - y1))) ∧
+    (∀ px py s, (app m (px + s * (y2 - y1)) (py - s * (x2 - x1))).1 = (app m px py).1) ∧
+    (∀ s, (app m (x1 + s * (y2 - y1)) (y1 - s * (x2 - x1))).1 = 0) ∧
+    (∀ s, (app m (x2 + s * (y2 - y1)) (y2 - s * (x2 - x1))).1 = 1) :=
+  GenQ.linear_gradient_geometry x1 y1 x2 y2 h
+example : (1 : ℚ) ≠ 4 ∨ (2 : ℚ) ≠ 6 := Or.inl (by norm_num)
+
+/-- Clause "circular has 0 at the centre and 1 on the circle through centre plus radius vector".
+    `ℚ` has no square root: the theorem holds for EVERY exact-arithmetic instance `[SqrtQ]` whose
+    `sqrt` squares to its argument at the one value `rx²+ry²` the helper takes the root of (`hs`).
+    Squared distances are used to avoid a second root: the image of the centre is the origin, the image
+    of `centre + radius vector` has squared norm 1, and the squared norm of the image of any point is its
+    squared distance from the centre over the squared radius. -/
+theorem circular_gradient_geometry [SqrtQ] (cx cy rx ry : ℚ) (hne : rx ≠ 0 ∨ ry ≠ 0)
+    (hs : SqrtQ.sq (rx * rx + ry * ry) * SqrtQ.sq (rx * rx + ry * ry) = rx * rx + ry * ry) :
+    let m := circularMatrix (β := ℚ) cx cy rx ry
+    app m cx cy = (0, 0) ∧
+    (app m (cx + rx) (cy + ry)).1 * (app m (cx + rx) (cy + ry)).1 +
+      (app m (cx + rx) (cy + ry)).2 * (app m (cx + rx) (cy + ry)).2 = 1 ∧
+    (∀ px py, (app m px py).1 * (app m px py).1 + (app m px py).2 * (app m px py).2 =
+      ((px - cx) * (px - cx) + (py - cy) * (py - cy)) / (rx * rx + ry * ry)) :=
+  GenQ.circular_gradient_geometry cx cy rx ry hne hs
+-- non-vacuity: radius vector (3,4) with a square-root function that is right at 25
+example : let _ : SqrtQ := SqrtQ.ofTable [(25, 5)]
+    ((3 : ℚ) ≠ 0 ∨ (4 : ℚ) ≠ 0) ∧
+      SqrtQ.sq ((3 : ℚ) * 3 + 4 * 4) * SqrtQ.sq ((3 : ℚ) * 3 + 4 * 4) = 3 * 3 + 4 * 4 := sqrt_table_example
+
+/-- The same on the SHAPE of the matrix `SetCircularGradient` builds, `[invR 0 −cx·invR; 0 invR −cy·invR]`,
+    for any `invR` with `invR²·(rx²+ry²) = 1` (no square-root function involved). -/
+theorem circular_shape_geometry (cx cy rx ry invR : ℚ) (h : invR * invR * (rx * rx + ry * ry) = 1) :
+    let m : Aff3 ℚ := ⟨invR, 0, -cx * invR, 0, invR, -cy * invR⟩
+    app m cx cy = (0, 0) ∧
+    (app m (cx + rx) (cy + ry)).1 * (app m (cx + rx) (cy + ry)).1 +
+      (app m (cx + rx) (cy + ry)).2 * (app m (cx + rx) (cy + ry)).2 = 1 ∧
+    (∀ px py, (app m px py).1 * (app m px py).1 + (app m px py).2 * (app m px py).2 =
+      ((px - cx) * (px - cx) + (py - cy) * (py - cy)) * (invR * invR)) :=
+  GenQ.circular_shape_geometry cx cy rx ry invR h
+example : ((1 : ℚ) / 5) * (1 / 5) * (3 * 3 + 4 * 4) = 1 := by norm_num
+
+/-- Clause "elliptical has 1 at both axis end points": the centre goes to the origin and the two axis end
+    points to `(1,0)` and `(0,1)`, both at distance 1 from the origin. -/
+theorem elliptical_gradient_geometry (cx cy rx ry sx sy : ℚ) (h : rx * sy - sx * ry ≠ 0) :
+    let m := ellipticalMatrix cx cy rx ry sx sy
+    app m cx cy = (0, 0) ∧ app m (cx + rx) (cy + ry) = (1, 0) ∧ app m (cx + sx) (cy + sy) = (0, 1) :=
+  GenQ.elliptical_gradient_geometry cx cy rx ry sx sy h
+example : (2 : ℚ) * 3 - 1 * 0 ≠ 0 := by norm_num
+
+/-! ## `SetGradient` (every number type) -/
+
+/-- Clause "more stops than fit beside the matrix (58) … are rejected with the documented error": more
+    than 58 stops give `TooManyGradientStops`, 58 or fewer never do. -/
+theorem too_many_stops {α : Type} (cSel nSel shape spread : UInt8) (stops : List (α × RGBA)) (t : Aff3 α) :
+    (58 < stops.length → setGradient cSel nSel shape spread stops t = .error .tooManyGradientStops) ∧
+    (stops.length ≤ 58 → setGradient cSel nSel shape spread stops t ≠ .error .tooManyGradientStops) :=
+  GenQ.too_many_stops cSel nSel shape spread stops t
+example : 58 < (List.replicate 59 ((0 : Nat), RGBA.black)).length := by decide
+
+/-- Clause "a colour selector inside the stop range [is] rejected with the documented error", exactly:
+    with at most 58 stops the error is `CSELUsedAsBothGradientAndStop` iff `cselClash` holds, i.e.
+    `10 ≤ CSEL < 10+n` or the same for `CSEL+64` computed in `uint8` … -/
+theorem csel_in_stop_range {α : Type} (cSel nSel shape spread : UInt8) (stops : List (α × RGBA)) (t : Aff3 α)
+    (hn : stops.length ≤ 58) :
+    setGradient cSel nSel shape spread stops t = .error .cselUsedAsBothGradientAndStop ↔
+      cselClash cSel stops.length :=
+  GenQ.csel_in_stop_range cSel nSel shape spread stops t hn
+
+/-- … and for a selector that is a register number (`< 64`, as every `CSel()` read-back is) this is
+    exactly: CREG[CSEL] — where the gradient value goes — is one of the registers `(10+i) mod 64`,
+    `i < n`, that receive the stop colours.  The `+64` clause covers stops 54…57, which wrap around to
+    registers 0…3. -/
+theorem csel_clash_iff (cSel : UInt8) (n : Nat) (hn : n ≤ 58) (hc : cSel.toNat < 64) :
+    cselClash cSel n ↔ ∃ i, i < n ∧ (10 + i) % 64 = cSel.toNat :=
+  GenQ.cselClash_iff cSel n hn hc
+example : cselClash 12 3 ∧ ¬ cselClash 13 3 ∧ cselClash 2 58 ∧ ¬ cselClash 2 56 := by decide
+
+/-- No other error is reported … -/
+theorem setGradient_errors {α : Type} (cSel nSel shape spread : UInt8) (stops : List (α × RGBA)) (t : Aff3 α)
+    (e : GenErr) (h : setGradient cSel nSel shape spread stops t = .error e) :
+    e = .tooManyGradientStops ∨ e = .cselUsedAsBothGradientAndStop :=
+  GenQ.setGradient_errors cSel nSel shape spread stops t e h
+
+/-- … and (clause "before anything is written") an error comes without any Destination call: the model's
+    result is either an error or a call list, as both checks precede the first call in the Go code. -/
+theorem errors_before_writes {α : Type} (cSel nSel shape spread : UInt8) (stops : List (α × RGBA)) (t : Aff3 α)
+    (e : GenErr) (h : setGradient cSel nSel shape spread stops t = .error e) :
+    ∀ calls, setGradient cSel nSel shape spread stops t ≠ .ok calls :=
+  GenQ.errors_before_writes cSel nSel shape spread stops t e h
+example : setGradient (α := Nat) 11 0 0 0 [(0, RGBA.black), (1, RGBA.black)] ⟨0, 0, 0, 0, 0, 0⟩ =
+    .error .cselUsedAsBothGradientAndStop := by decide
+
+/-- Clauses "the stops, spread and shape given are the ones rendered; stop colours and offsets are stored
+    in the contiguous registers the written gradient value itself names, with the matrix in the six
+    number registers below its number base; … CSEL and NSEL are left as they were" — as a statement about
+    the calls made: the gradient value `g` goes to CREG[CSEL]; `g` decodes (`decodeGradient`, what the
+    renderer's `initGradient` reads) to colour base 10, number base 10, the given shape and spread and
+    the number of stops, and is a gradient value, not a colour; the selectors are set to the bases; the
+    matrix is written to NREG[NSEL−6 … NSEL−1] (non-incrementing, adjustments 6…1); every stop writes its
+    colour and offset through the INCREMENTING forms with adjustment 0, i.e. to CREG/NREG[10+i]; the last
+    two calls restore the selector values read at the start. -/
+theorem setgradient_layout {α : Type} (cSel nSel shape spread : UInt8) (stops : List (α × RGBA)) (t : Aff3 α)
+    (hn : stops.length ≤ 58) (hc : ¬ cselClash cSel stops.length) :
+    let g := encodeGradient 10 10 shape spread (UInt8.ofNat stops.length)
+    setGradient cSel nSel shape spread stops t =
+      .ok ([.setCReg 0 false (Color.rgbaColor g), .setCSel 10, .setNSel 10,
+            .setNReg 6 false t.a0, .setNReg 5 false t.a1, .setNReg 4 false t.a2,
+            .setNReg 3 false t.a3, .setNReg 2 false t.a4, .setNReg 1 false t.a5] ++
+           stops.flatMap (fun s => [.setCReg 0 true (Color.rgbaColor s.2), .setNReg 0 true s.1]) ++
+           [.setCSel cSel, .setNSel nSel]) ∧
+    decodeGradient g = ⟨10, 10, shape &&& 0x01, spread &&& 0x03, UInt8.ofNat stops.length⟩ ∧
+    g.validGradient = true ∧ g.validPremul = false :=
+  GenQ.setgradient_layout cSel nSel shape spread stops t hn hc
+example : (2 : Nat) ≤ 58 ∧ ¬ cselClash 0 2 := by decide
+
+/-- `decodeGradient ∘ encodeGradient` for ALL byte arguments: each field comes back masked to its width. -/
+theorem decode_encode_gradient (cBase nBase shape spread nStops : UInt8) :
+    decodeGradient (encodeGradient cBase nBase shape spread nStops) =
+      ⟨cBase &&& 0x3f, nBase &&& 0x3f, shape &&& 0x01, spread &&& 0x03, nStops &&& 0x3f⟩ :=
+  GenQ.decode_encode_gradient cBase nBase shape spread nStops
+
+/-!
+## Not proved in this file
+
+* Rounding: the geometry theorems are about the `ℚ` instance; no error bound for the float32 instance.
+* "the general form uses the given matrix" is visible in `setgradient_layout` (the six `setNReg` calls carry
+  `t.a0 … t.a5` unchanged); that the renderer then reads exactly these six registers as `a…f` and composes
+  them with the pixel-to-viewBox map is C15 (`Ivg.Props.C15.pix2grad_compose`).
+* The composition "run these calls through the decoder/renderer's register machine and look at the
+  register files" is stated here on the call list only; the selector semantics (incrementing forms) is C07.
+-/
+
 end Ivg.Props.C19
-#obligations C19 [Ivg.Gen.Tie.drawOps_tie, Ivg.Gen.Tie.magic_tie, Ivg.Gen.Tie.errorStrings_tie]
+
+#obligations C19 [
+  Ivg.Props.C19.linear_gradient_geometry, Ivg.Props.C19.circular_gradient_geometry,
+  Ivg.Props.C19.circular_shape_geometry, Ivg.Props.C19.elliptical_gradient_geometry,
+  Ivg.Props.C19.too_many_stops, Ivg.Props.C19.csel_in_stop_range, Ivg.Props.C19.csel_clash_iff,
+  Ivg.Props.C19.setGradient_errors, Ivg.Props.C19.errors_before_writes,
+  Ivg.Props.C19.setgradient_layout, Ivg.Props.C19.decode_encode_gradient,
+  Ivg.Gen.Tie.drawOps_tie, Ivg.Gen.Tie.magic_tie, Ivg.Gen.Tie.errorStrings_tie]
